@@ -34,7 +34,7 @@ SPEC = {
              "can authenticate - key-id, WEPSeed, CCMP reserved - excluded), for CCMP every address octet of the AAD: never reported decrypted, "
              "still marked protected. Hostile bodies: every header variant x body length 0..64, 2399, 2400 (thorough ..130) x 4 fills (00, ff, "
              "pseudo-random, truncation of a valid frame) with the matching key registered, in a forked child per batch: no sanitizer report, "
-             "no crash. (3) histories on ONE decrypter object, last 8 jobs: BFS TO FIXPOINT over the operations of a single object x a last-write "
+             "no crash. (3) histories on ONE decrypter object, 8 jobs: BFS TO FIXPOINT over the operations of a single object x a last-write "
              "model of what is registered. WEPDecrypter (4 configurations: DS form of the decrypt events x BSSID order): add_password(bssid "
              "0/1, key of 5 / 13 / another 13 octets), remove_password(bssid 0/1), decrypt(frame for bssid b under key k); canon includes the "
              "private scratch key buffer. WPA2Decrypter (4 configurations: Data/QoS Data x station order): add_decryption_keys(pair 0/1, CCMP / "
@@ -42,11 +42,19 @@ SPEC = {
              "network's beacon, each pair's complete four-way handshake (its keys replace the pair's keys when the network is known). After "
              "EVERY operation every frame of the family (bssid/pair x every key it could be protected with x ToDS/FromDS; for WEP on a copy "
              "of the object, one after the other) is presented: it decrypts to its plaintext IFF the key currently registered for its "
-             "BSSID / pair is the one it was encrypted with, otherwise it is not reported decrypted and stays marked. distinct_nontrivial = distinct product states holding keys or >= 2 handshake messages + distinct decrypted frames."),
+             "BSSID / pair is the one it was encrypted with, otherwise it is not reported decrypted and stays marked. (4) ordered "
+             "pairs, last 4 jobs ({CCMP, TKIP} x {Data, QoS Data}): value relations inside one handshake. 37 (ANonce, SNonce) pairs = equal "
+             "everywhere except at ONE octet position p in {0, 1, 15, 16, 17, 30, 31} with values 7f/80 (sign boundary) and 00/ff, in both "
+             "orders; 8 pairs differing at two positions with contradicting orders ((0,31), (15,16), (16,31), (1,17): the first difference "
+             "decides); the equal pair; x 25 (BSSID, station) address pairs = equal except at one octet q in 0..5, same values and both "
+             "orders, and the equal pair; full cross product. Per case on a copy of a decrypter knowing passphrase + SSID: beacon of the case's "
+             "BSSID, handshake generation 1, then generation 2 with the relation at the same position reversed; after each generation "
+             "get_keys() must hold PTK = reference PRF-512 over min|max addresses and min|max nonces (own memcmp-ordered derivation) and a ToDS "
+             "and a FromDS data frame encrypted by the reference side under that PTK must decrypt exactly. distinct_nontrivial = distinct product states holding keys or >= 2 handshake messages + distinct decrypted frames."),
     "claim": ("Every history over the event alphabet is covered per configuration (the product state space is finite and explored to fixpoint; "
               "depth of the deepest new state is reported as max_depth), so every valid ordering with duplicates and every interleaving with the "
               "other station, beacons and data frames is checked, and every invalid ordering is checked for wrong decryptions. The frame family "
-              "is enumerated completely and the single-object operation histories of part 3 are explored to fixpoint (exhaustive:true)."),
+              "is enumerated completely and the single-object operation histories of part 3 are explored to fixpoint; the ordered-pairs product is enumerated completely (exhaustive:true)."),
     "note": ("Trusted: sanitizers; OpenSSL's CCM, HMAC-SHA1/MD5 and AES; the reference encryptors, which are validated at start-up against the "
              "published vectors (802.11-2012 annex M TKIP mixing vectors 1-4, CCMP vector, Michael chain, PBKDF2 'password'/'IEEE', PRF-512, "
              "RC4, CRC-32). Bounds: two stations, one AP, one handshake instance per station (retransmissions keep their nonces), unicast "
